@@ -345,6 +345,16 @@ func genC04(rng *rand.Rand, tier string) (cases []string) {
 	if tier == "thorough" {
 		n = 300000
 	}
+	// exhaustive over the byte alphabet at one nibble position of a full ip6.arpa name and at
+	// one position of an in-addr.arpa name (decides fromHexByte and the octet scanner's
+	// character classes for all 256 bytes)
+	for b := 0; b < 256; b++ {
+		c := string([]byte{byte(b)})
+		v6 := strings.Repeat("0.", 7) + c + "." + strings.Repeat("0.", 24) + "ip6.arpa"
+		cases = append(cases, arpaCase("C04.fromrev", v6), "C04.v6rev "+hx([]byte(v6)))
+		v4 := "1." + c + ".3.4.in-addr.arpa"
+		cases = append(cases, arpaCase("C04.fromrev", v4), arpaCase("C04.fromrev", "1.2"+c+".3.4.in-addr.arpa"))
+	}
 	for i := 0; i < n; i++ {
 		switch rng.IntN(10) {
 		case 0, 1, 2:
@@ -402,6 +412,13 @@ func genC05(rng *rand.Rand, tier string) (cases []string) {
 		}
 	}
 	rec(nil, maxLen)
+	// every byte as a nibble label and inside an octet label
+	for b := 0; b < 256; b++ {
+		c := string([]byte{byte(b)})
+		for _, s := range []string{c + ".1.ip6.arpa", "1" + c + ".ip6.arpa", c + ".2.in-addr.arpa", "1" + c + ".2.in-addr.arpa", "x" + c + ".in-addr.arpa"} {
+			cases = append(cases, arpaCase("C05.prefix", s), arpaCase("C05.extract", s))
+		}
+	}
 	for i := 0; i < n; i++ {
 		s := genArpaName(rng)
 		switch rng.IntN(12) {
